@@ -1,8 +1,9 @@
 mod checks;
 mod driver;
 mod gcmodel;
+mod gcunit;
 mod manifest;
 
 fn main() {
-    vcore::main_with(vec![checks::c01(), checks::c03()], &[]);
+    vcore::main_with(vec![checks::c01(), checks::c03(), checks::c04(), checks::c05(), checks::c07(), checks::c08(), checks::c20()], &[]);
 }
